@@ -119,8 +119,37 @@ def empty(slice_i, n):
     for spec in S_.empty_shapes(slice_i, n):
         yield {"model": spec, "points": None, "via_not": bool(len(str(spec)) % 2)}
 
+@st.composite
+def wide_mixed_case(draw, tier):
+    """a threshold node that mixes MANY atoms (around 64 / 128 / 256) with 1-2 compound children - the branch of negate() that
+    regroups atoms - judged on the all-zero and all-one assignments, on one-hot assignments at the ends and at the block
+    boundaries of the atom list, and on a few sparse ones"""
+    n = draw(st.sampled_from([17, 33, 63, 64, 65, 66, 100, 127, 128, 129, 130, 200, 257]))
+    atoms = [{"k": "leaf", "id": "x%03d" % i, "b": [0, 1]} for i in range(n)]
+    if draw(st.integers(0, 4)) == 0:
+        atoms[draw(st.integers(0, n - 1))]["b"] = [0, 3]
+    comps = [{"k": draw(st.sampled_from(["All", "Any"])), "id": draw(st.sampled_from(["P%d" % j, None])),
+              "c": [{"k": "leaf", "id": "p%d" % j, "b": [0, 1]}, {"k": "leaf", "id": "q%d" % j, "b": [0, 1]}]} for j in range(draw(st.integers(1, 2)))]
+    kind = draw(st.sampled_from(["Any", "Any", "AtLeast", "All"]))
+    node = {"k": kind, "id": draw(st.sampled_from(["A", None])), "c": atoms + comps}
+    if kind == "AtLeast":
+        node["v"], node["s"] = draw(st.sampled_from([1, 1, 2, n // 2, n])), 1
+    lv = oracle.spec_leaves(node)
+    ids = sorted(lv)
+    base = {i: 0 for i in ids}
+    pts = [dict(base), {i: lv[i][1] for i in ids}]
+    hot = sorted({0, 1, 62, 63, 64, 65, 127, 128, n - 2, n - 1} & set(range(n)))
+    for h in hot:
+        pts.append(dict(base, **{"x%03d" % h: 1}))
+        pts.append(dict(base, **{"x%03d" % h: 1, "p0": 1, "q0": 1}))
+    for _ in range(4):
+        on = draw(st.lists(st.integers(0, n - 1), min_size=2, max_size=5, unique=True))
+        pts.append(dict(base, **{"x%03d" % h: 1 for h in on}))
+    return {"model": node, "points": [[p_[i] for i in ids] for p_ in pts], "via_not": draw(st.booleans())}
+
+
 def parts(tier):
-    return [Part("scale", strategy=lambda t: __import__("vf.strategies", fromlist=["x"]).scale_case().map(lambda c: dict(c, via_not=len(str(c)) % 2 == 0)), check=check, quick=(2, 40), thorough=(4, 600)), Part("concat_names", enumerate_cases=(lambda t: ({"model": s_, "points": None, "via_not": v_} for s_ in __import__("vf.strategies", fromlist=["x"]).concat_shapes() for v_ in (False, True))), check=check, time_quick=120.0), Part("shared_depths", enumerate_cases=(lambda t: ({"model": s_, "points": None, "via_not": bool(len(str(s_)) % 2)} for s_ in __import__("vf.strategies", fromlist=["x"]).shared_depth_shapes())), check=check, time_quick=120.0), Part("empty0", enumerate_cases=(lambda t: empty(0, 1)), check=check, time_quick=120.0), Part("wide_nodes", strategy=lambda t: __import__("vf.strategies", fromlist=["x"]).wide_case().map(lambda c: dict(c, via_not=len(str(c)) % 2 == 0)), check=check, quick=(2, 150), thorough=(4, 2000))] + [Part("mixed%d" % i, enumerate_cases=(lambda t, i=i: mixed(i, 8)), check=check, time_quick=150.0) for i in range(8)] + [Part("shapes%d" % i, enumerate_cases=(lambda t, i=i: shapes(i, 4)), check=check, time_quick=120.0) for i in range(4)] + [
+    return [Part("wide_mixed", strategy=lambda t: wide_mixed_case(t), check=check, quick=(2, 40), thorough=(4, 500)), Part("scale", strategy=lambda t: __import__("vf.strategies", fromlist=["x"]).scale_case().map(lambda c: dict(c, via_not=len(str(c)) % 2 == 0)), check=check, quick=(2, 40), thorough=(4, 600)), Part("concat_names", enumerate_cases=(lambda t: ({"model": s_, "points": None, "via_not": v_} for s_ in __import__("vf.strategies", fromlist=["x"]).concat_shapes() for v_ in (False, True))), check=check, time_quick=120.0), Part("shared_depths", enumerate_cases=(lambda t: ({"model": s_, "points": None, "via_not": bool(len(str(s_)) % 2)} for s_ in __import__("vf.strategies", fromlist=["x"]).shared_depth_shapes())), check=check, time_quick=120.0), Part("empty0", enumerate_cases=(lambda t: empty(0, 1)), check=check, time_quick=120.0), Part("wide_nodes", strategy=lambda t: __import__("vf.strategies", fromlist=["x"]).wide_case().map(lambda c: dict(c, via_not=len(str(c)) % 2 == 0)), check=check, quick=(2, 150), thorough=(4, 2000))] + [Part("mixed%d" % i, enumerate_cases=(lambda t, i=i: mixed(i, 8)), check=check, time_quick=150.0) for i in range(8)] + [Part("shapes%d" % i, enumerate_cases=(lambda t, i=i: shapes(i, 4)), check=check, time_quick=120.0) for i in range(4)] + [
         Part("thresholds", strategy=lambda t: focus(t), check=check, quick=(2, 400), thorough=(4, 3000)),
         Part("small", strategy=lambda t: strat(t, "small"), check=check, quick=(6, 350), thorough=(12, 2500)),
         Part("large", strategy=lambda t: strat(t, "large"), check=check, quick=(2, 250), thorough=(4, 1500)),
